@@ -242,7 +242,8 @@ impl<W: tokio::io::AsyncRead + Unpin> tokio::io::AsyncRead for ProgressBarIter<W
     ) -> Poll<io::Result<()>> {
         let prev_len = buf.filled().len() as u64;
         if let Poll::Ready(e) = Pin::new(&mut self.it).poll_read(cx, buf) {
-            self.progress.inc(buf.filled().len() as u64 - prev_len);
+            self.progress
+                .inc((buf.filled().len() as u64).saturating_sub(prev_len));
             Poll::Ready(e)
         } else {
             Poll::Pending
